@@ -8,6 +8,7 @@ CONSTANTS
   MaxCfg = 2
   MaxParse = 1
   Family = "c16"
+  Reconfigure = FALSE
   Emit = TRUE
 INVARIANTS
   Inv_ExpectIff
